@@ -115,7 +115,12 @@ class Union(BackedView):
             assert value_node.root == zero_node(0).root
             return None
 
+        selector = self.selector()
+
         def handle_change(v: View) -> None:
+            if self.selector() != selector:
+                raise Exception(f"the union has selector {self.selector()} now: a value view of option {selector}"
+                                f" cannot be written back")
             self.set_backing(self.get_backing().setter(LEFT_GINDEX)(v.get_backing()))
 
         return selected_type.view_from_backing(value_node, handle_change)
